@@ -89,6 +89,7 @@ type Report struct {
 	Samples        []PathResult   `json:"samples"`
 	SolverQueries  int            `json:"solver_queries"`
 	SolverTimeS    float64        `json:"solver_time_s"`
+	ModelTimeS     float64        `json:"model_time_s"`
 	SolverErrors   int            `json:"solver_errors"`
 	SolverUnknown  int            `json:"solver_unknown"`
 	WallS          float64        `json:"wall_s"`
@@ -677,7 +678,8 @@ func (i *interpreter) Explore(entry *ssa.Function, cfg Config) *Report {
 	}
 	rep.QueueLeft = len(ex.queue)
 	rep.SolverQueries = solver.Queries
-	rep.SolverTimeS = solver.Time.Seconds()
+	rep.SolverTimeS = solver.Time.Seconds() + solver.ModelTime.Seconds()
+	rep.ModelTimeS = solver.ModelTime.Seconds()
 	rep.SolverErrors = solver.Errors
 	rep.SolverUnknown = ex.unknowns
 	rep.WallS = time.Since(start).Seconds()
